@@ -64,6 +64,7 @@ type run struct {
 	twin       *evmutil.Node
 	twinChain  [][][]byte
 	targetLive bool
+	routines   int
 	height     int64
 	ledger     map[common.Address]uint64
 	applied    map[string]int64 // raw bytes -> height at which it was reported valid
@@ -155,6 +156,16 @@ func (r *run) runBlock(si int, items []item, commit bool) {
 		verifhook.GateFn = nil
 	}
 	r.rep.Checks++
+	if hg, ok := pnc.(evmutil.Hang); ok {
+		var desc []string
+		for _, it := range items {
+			desc = append(desc, it.t.String())
+		}
+		r.fail(si, action, "hang", true, "hang:"+hg.Call, fmt.Sprintf("%s (%d signature-checking goroutines) on block [%s]: block execution never returns, the node is stuck at this height\n%s",
+			hg.String(), r.routines, strings.Join(desc, ", "), trim(hg.Dump)), nil, nil)
+		r.rep.Emit()
+		os.Exit(0) // the stuck goroutines cannot be reclaimed
+	}
 	if pnc != nil {
 		cls := classOfPanic(fmt.Sprint(pnc), stack, items)
 		var desc []string
@@ -231,6 +242,11 @@ func (r *run) runBlock(si int, items []item, commit bool) {
 	}
 	// ---- commit on the replica and on the twin (same chain without the invalid transactions)
 	cr, cerr, pnc, stack := r.node.Commit(blk)
+	if hg, ok := pnc.(evmutil.Hang); ok {
+		r.fail(si, "Commit", "hang", true, "hang:"+hg.Call, hg.String()+"\n"+trim(hg.Dump), nil, nil)
+		r.rep.Emit()
+		os.Exit(0)
+	}
 	if pnc != nil || cerr != nil {
 		r.fail(si, "Commit", "panic", true, "panic:Commit", fmt.Sprintf("OnCommit failed: %v %v\n%s", pnc, cerr, trim(stack)), nil, nil)
 		r.aborted = true
@@ -451,6 +467,7 @@ func main() {
 		os.Exit(2)
 	}
 	debug.SetGCPercent(400)
+	defaultRoutines := evm.VerifSetValidateRoutines(1)
 	rep := mbt.NewReport()
 	classes := map[string]bool{}
 	routines := []int{1, 2, 4, 8, 16, 3}
@@ -479,7 +496,11 @@ func main() {
 		if v, ok := tr.Cfg["routines"]; ok {
 			rc = mbt.Int(v)
 		}
+		if rc < 0 {
+			rc = defaultRoutines // the package default: runtime.NumCPU()
+		}
 		evm.VerifSetValidateRoutines(rc)
+		r.routines = rc
 		var items []item
 		inBlock := false
 		hh := fnv.New32a()
